@@ -3,7 +3,7 @@
 # Applies a seeded change to a scratch worktree of /repo's HEAD and runs the given checks against
 # it (VERIF_REPO), then removes the worktree. /repo itself is not touched (other work uses it).
 set -e
-seed="$1"; shift
+seed="$(cd "$1" && pwd)"; shift
 wt=$(mktemp -d /tmp/seedwt-XXXXXX); rmdir "$wt"
 git -C /repo worktree add -q "$wt" HEAD
 if ! git -C "$wt" apply "$seed/patch.diff"; then echo "PATCH DOES NOT APPLY"; git -C /repo worktree remove --force "$wt"; exit 3; fi
